@@ -13,10 +13,14 @@ Norm(n, d) == LET g == Gcd(Abs(n), Abs(d)) s == IF d < 0 THEN -1 ELSE 1
 R(n) == <<n, 1>>
 Zero == <<0, 1>>
 One == <<1, 1>>
-RAdd(a, b) == Norm(a[1] * b[2] + b[1] * a[2], a[2] * b[2])
-RSub(a, b) == Norm(a[1] * b[2] - b[1] * a[2], a[2] * b[2])
-RMul(a, b) == Norm(a[1] * b[1], a[2] * b[2])
-RDiv(a, b) == Norm(a[1] * b[2], a[2] * b[1])         \* b # Zero
+\* addition over the least common denominator and multiplication with cross-cancellation keep the
+\* intermediate products small (TLC stops with an overflow error rather than wrapping)
+RAdd(a, b) == LET g == Gcd(a[2], b[2]) IN Norm(a[1] * (b[2] \div g) + b[1] * (a[2] \div g), (a[2] \div g) * b[2])
+RSub(a, b) == LET g == Gcd(a[2], b[2]) IN Norm(a[1] * (b[2] \div g) - b[1] * (a[2] \div g), (a[2] \div g) * b[2])
+RMul(a, b) == IF a[1] = 0 \/ b[1] = 0 THEN <<0, 1>>
+              ELSE LET g1 == Gcd(Abs(a[1]), b[2]) g2 == Gcd(Abs(b[1]), a[2]) IN
+                   <<(a[1] \div g1) * (b[1] \div g2), (a[2] \div g2) * (b[2] \div g1)>>
+RDiv(a, b) == RMul(a, IF b[1] < 0 THEN <<-b[2], -b[1]>> ELSE <<b[2], b[1]>>)         \* b # Zero
 RNeg(a) == <<-a[1], a[2]>>
 RLt(a, b) == a[1] * b[2] < b[1] * a[2]
 RLe(a, b) == a[1] * b[2] <= b[1] * a[2]
